@@ -46,8 +46,8 @@ func TestCheck(t *testing.T) {
 	r := ev.Start("C18", "fault_enumeration")
 	// the frontiers hold many small maps: collect eagerly and cap the runtime well below the box's share
 	// (bin/check exports GOGC=600 / GOMEMLIMIT=10GiB; this harness wants less)
-	debug.SetGCPercent(100)
-	debug.SetMemoryLimit(6 << 30)
+	debug.SetGCPercent(50)
+	debug.SetMemoryLimit(4 << 30)
 	r.SetBudget(ev.Pick(r, 140, 1500))
 	r.Assume = append(r.Assume,
 		"one batch commit is atomic (backend contract, C15); a crash is modelled between commits of the db.KeyValueStore seam (faultdb over db/memory)",
@@ -95,10 +95,11 @@ func TestCheck(t *testing.T) {
 			addShape(23, "mixed", p)
 			addShape(36, "mixed", p)
 		}
-		for n := 36; n >= 0; n-- {
+		// chain lengths around every ingest-range boundary (ranges of 10 blocks): n mod 10 in {0,1,5,9}, and 36
+		for _, n := range []int{36, 35, 31, 30, 29, 25, 21, 20, 19, 15, 11, 10, 9, 5, 1, 0} {
 			addShape(n, "mixed", 0)
 		}
-		for _, n := range []int{1, 10, 11, 20, 21, 30, 31, 36} {
+		for _, n := range []int{1, 10, 11, 36} {
 			addShape(n, "dense", 0)
 		}
 	}
